@@ -144,9 +144,22 @@ Proof.
   destruct k as [k|], k' as [k'|]; try discriminate K.
   - injection K as K. rewrite K.
     destruct (assoc_get (lower k') sublink_types) as [a|]; auto.
-    destruct (assoc_get a (e_attrs e)) as [[ids|?| |]|]; auto.
-    now rewrite (find_in_lower p n n' ids H).
+    destruct (assoc_get a (e_attrs e)) as [[ids|j| |]|]; auto.
+    + now rewrite (find_in_lower p n n' ids H).
+    + now rewrite (name_eqb_lower n n' _ H).
   - now apply find_children_lower.
+Qed.
+
+Lemma find_scope_equiv p i n n' k k' :
+  lower n = lower n' -> kind_equiv k k' -> find_scope p i n k = find_scope p i n' k'.
+Proof.
+  intros H K. unfold find_scope.
+  destruct k as [k|], k' as [k'|]; try discriminate K.
+  - pose proof K as K'. injection K' as K'. rewrite K'.
+    destruct (assoc_get (lower k') scope_link_types) as [attrs|].
+    + destruct (get_ent p i) as [e|]; auto. now apply find_chain_lower.
+    + now apply find_child_equiv.
+  - now apply find_child_equiv.
 Qed.
 
 Definition child_equiv (c c' : option str) : Prop := option_map lower c = option_map lower c'.
@@ -182,9 +195,9 @@ Lemma scope_find_equiv p c n n' k k' :
   lower n = lower n' -> kind_equiv k k' -> scope_find p c n k = scope_find p c n' k'.
 Proof.
   intros H K. unfold scope_find, find_child_quiet.
-  rewrite (find_child_equiv p c n n' k k' H K).
+  rewrite (find_scope_equiv p c n n' k k' H K).
   destruct (get_ent p c) as [e|]; auto. destruct (e_parent e) as [par|]; auto.
-  now rewrite (find_child_equiv p par n n' k k' H K).
+  now rewrite (find_scope_equiv p par n n' k k' H K).
 Qed.
 
 Theorem case_insensitive p ctx r r' :
@@ -231,12 +244,21 @@ Proof.
   unfold find_child. destruct (get_ent p i) as [e|]; [|discriminate].
   destruct k as [k|].
   - destruct (assoc_get (lower k) sublink_types) as [a|]; [|discriminate].
-    destruct (assoc_get a (e_attrs e)) as [[ids|?| |]|]; try discriminate.
-    destruct (find_in p n ids) as [x|] eqn:F; [|discriminate].
-    intros [= <-]. now apply find_in_some in F.
+    destruct (assoc_get a (e_attrs e)) as [[ids|x| |]|]; try discriminate.
+    + destruct (find_in p n ids) as [x|] eqn:F; [|discriminate].
+      intros [= <-]. now apply find_in_some in F.
+    + destruct (name_eqb n (name_of p x)) eqn:E; [|discriminate]. now intros [= <-].
   - unfold find_children. destruct (find_chain p e n children_attrs) eqn:F; try discriminate.
     + intros [= <-]. eapply find_chain_named; eauto.
     + apply find_singles_named.
+Qed.
+
+Lemma find_scope_named p i n k j :
+  find_scope p i n k = Found j -> name_eqb n (name_of p j) = true.
+Proof.
+  unfold find_scope. destruct k as [k|]; [|apply find_child_named].
+  destruct (assoc_get (lower k) scope_link_types) as [attrs|]; [|apply find_child_named].
+  destruct (get_ent p i) as [e|]; [|discriminate]. apply find_chain_named.
 Qed.
 
 Lemma project_find_named p n k c ck j :
@@ -258,31 +280,70 @@ Proof.
   now intros [= <-].
 Qed.
 
+Lemma finish_valid p f j : finish p f = RLink j -> get_ent p j <> None.
+Proof.
+  destruct f as [i| | |]; simpl; try discriminate.
+  destruct (get_ent p i) as [e|] eqn:G; [|discriminate]. destruct (e_has_url e); [|discriminate].
+  intros [= <-]. congruence.
+Qed.
+
+Lemma convert_link_valid p ctx r j : convert_link p ctx r = RLink j -> get_ent p j <> None.
+Proof.
+  unfold convert_link, project_step.
+  destruct (ctx_step p ctx r); try apply finish_valid.
+  destruct (project_find p (r_name r) (r_kind r) (r_child r) (r_ckind r)); try apply finish_valid.
+  destruct (r_child r); [apply finish_valid|discriminate].
+Qed.
+
+Lemma settle_link res j : settle res = RLink j -> res = RLink j.
+Proof. destruct res; simpl; intros H; try discriminate; exact H. Qed.
+
 Lemma scope_find_named p c n k j :
   scope_find p c n k = Found j -> name_eqb n (name_of p j) = true.
 Proof.
   unfold scope_find, find_child_quiet.
-  destruct (find_child p c n k) eqn:F1; try discriminate.
-  - intros [= <-]. eapply find_child_named; eauto.
+  destruct (find_scope p c n k) eqn:F1; try discriminate.
+  - intros [= <-]. eapply find_scope_named; eauto.
   - destruct (get_ent p c) as [e|]; [|discriminate]. destruct (e_parent e) as [par|]; [|discriminate].
-    destruct (find_child p par n k) eqn:F2; try discriminate.
-    intros [= <-]. eapply find_child_named; eauto.
+    destruct (find_scope p par n k) eqn:F2; try discriminate.
+    intros [= <-]. eapply find_scope_named; eauto.
   - destruct (get_ent p c) as [e|]; [|discriminate]. destruct (e_parent e) as [par|]; [|discriminate].
-    destruct (find_child p par n k) eqn:F2; try discriminate.
-    intros [= <-]. eapply find_child_named; eauto.
+    destruct (find_scope p par n k) eqn:F2; try discriminate.
+    intros [= <-]. eapply find_scope_named; eauto.
+Qed.
+
+(* where a link can come from *)
+Lemma convert_link_cases p ctx r j :
+  convert_link p ctx r = RLink j ->
+  ctx_step p ctx r = Found j \/
+  (ctx_step p ctx r = NotFound /\
+   (project_find p (r_name r) (r_kind r) (r_child r) (r_ckind r) = Found j \/
+    (project_find p (r_name r) (r_kind r) (r_child r) (r_ckind r) = NotFound /\
+     r_child r <> None /\ project_find p (r_name r) (r_kind r) None None = Found j))).
+Proof.
+  unfold convert_link. destruct (ctx_step p ctx r) as [i| | |] eqn:S.
+  - intros H. apply finish_link in H. left. exact H.
+  - unfold project_step.
+    destruct (project_find p (r_name r) (r_kind r) (r_child r) (r_ckind r)) as [i| | |] eqn:P1.
+    + intros H. apply finish_link in H. right. split; auto.
+    + destruct (r_child r) as [cn|]; [|discriminate].
+      intros H. apply finish_link in H. right. split; auto. right. split; auto. split; [discriminate|auto].
+    + simpl. discriminate.
+    + simpl. discriminate.
+  - simpl. discriminate.
+  - simpl. discriminate.
 Qed.
 
 (* C11: a link never leads to something of another name *)
 Theorem child_sound p ctx r j :
-  convert_link p ctx r = RLink j ->
+  render p ctx r = RLink j ->
   match r_child r with
   | Some cn => name_eqb cn (name_of p j) = true \/ name_eqb (r_name r) (name_of p j) = true
   | None => name_eqb (r_name r) (name_of p j) = true
   end.
 Proof.
-  unfold convert_link. destruct (ctx_step p ctx r) as [i| | |] eqn:S; try discriminate.
-  - intros H. apply finish_link in H. injection H as ->.
-    unfold ctx_step in S. destruct ctx as [c|]; [|discriminate].
+  intros H. apply settle_link, convert_link_cases in H as [S|[S [P1|(P1 & Hc & P2)]]].
+  - unfold ctx_step in S. destruct ctx as [c|]; [|discriminate].
     destruct (scope_find p c (r_name r) (r_kind r)) as [x| | |] eqn:SF.
     + destruct (r_child r) as [cn|].
       * left. eapply find_child_named; eauto.
@@ -290,48 +351,36 @@ Proof.
     + destruct (r_child r); discriminate.
     + destruct (r_child r); discriminate.
     + destruct (r_child r); discriminate.
-  - unfold project_step.
-    destruct (project_find p (r_name r) (r_kind r) (r_child r) (r_ckind r)) as [i| | |] eqn:P1;
-      try discriminate.
-    + intros H. apply finish_link in H. injection H as ->.
-      apply project_find_named in P1. destruct (r_child r); auto.
-    + destruct (r_child r) as [cn|]; [|discriminate].
-      destruct (project_find p (r_name r) (r_kind r) None None) as [i| | |] eqn:P2; try discriminate.
-      intros H. apply finish_link in H. injection H as ->.
-      apply project_find_named in P2. auto.
+  - apply project_find_named in P1. destruct (r_child r); auto.
+  - apply project_find_named in P2. destruct (r_child r); [auto|congruence].
 Qed.
 
-(* C11: an unknown kind word for the item never yields a link (it is an error when the
-   component exists, plain text otherwise) *)
+(* C11: an unknown kind word for the item never yields a link (a warning and plain text) *)
 Theorem child_kind_error p ctx r cn ck :
   r_child r = Some cn -> r_ckind r = Some ck ->
   assoc_get (lower ck) sublink_types = None ->
-  forall j, convert_link p ctx r <> RLink j.
+  forall j, render p ctx r <> RLink j.
 Proof.
-  intros Hc Hk Hs j C.
-  unfold convert_link in C.
-  assert (FC : forall x f, find_child p x cn (Some ck) = f -> f = ErrV \/ (f = NotFound /\ get_ent p x = None)).
-  { intros x f <-. unfold find_child. destruct (get_ent p x); auto. rewrite Hs. auto. }
-  destruct (ctx_step p ctx r) as [i| | |] eqn:S; try discriminate.
-  - apply finish_link in C. injection C as ->.
-    unfold ctx_step in S. destruct ctx as [c|]; [|discriminate].
+  intros Hc Hk Hs j H.
+  assert (FC : forall x, find_child p x cn (Some ck) = ErrV \/
+                         (find_child p x cn (Some ck) = NotFound /\ get_ent p x = None)).
+  { intros x. unfold find_child. destruct (get_ent p x); auto. rewrite Hs. auto. }
+  pose proof (settle_link _ _ H) as C.
+  apply convert_link_cases in C as [S|[S [P1|(P1 & _ & P2)]]].
+  - unfold ctx_step in S. destruct ctx as [c|]; [|discriminate].
     rewrite Hc, Hk in S.
     destruct (scope_find p c (r_name r) (r_kind r)) as [x| | |]; try discriminate.
-    destruct (FC _ _ S) as [X|[X _]]; discriminate.
-  - unfold project_step in C. rewrite Hc, Hk in C.
-    destruct (project_find p (r_name r) (r_kind r) (Some cn) (Some ck)) as [i| | |] eqn:P1;
-      try discriminate.
-    + apply finish_link in C. injection C as ->.
-      unfold project_find in P1.
-      destruct (match r_kind r with Some _ => _ | None => _ end) as [ids|]; [|discriminate].
-      destruct (find_in p (r_name r) ids) as [x|]; [|discriminate].
-      destruct (FC _ _ P1) as [X|[X _]]; discriminate.
-    + destruct (project_find p (r_name r) (r_kind r) None None) as [i| | |] eqn:P2; try discriminate.
-      unfold project_find in P1, P2.
-      destruct (match r_kind r with Some _ => _ | None => _ end) as [ids|]; [|discriminate].
-      destruct (find_in p (r_name r) ids) as [x|]; [|discriminate]. injection P2 as ->.
-      destruct (FC _ _ P1) as [X|[_ X]]; [discriminate|].
-      unfold finish in C. rewrite X in C. discriminate.
+    destruct (FC x) as [X|[X _]]; congruence.
+  - rewrite Hc, Hk in P1. unfold project_find in P1.
+    destruct (match r_kind r with Some _ => _ | None => _ end) as [ids|]; [|discriminate].
+    destruct (find_in p (r_name r) ids) as [x|]; [|discriminate].
+    destruct (FC x) as [X|[X _]]; congruence.
+  - rewrite Hc, Hk in P1. unfold project_find in P1, P2.
+    destruct (match r_kind r with Some _ => _ | None => _ end) as [ids|]; [|discriminate].
+    destruct (find_in p (r_name r) ids) as [x|]; [|discriminate]. injection P2 as ->.
+    destruct (FC j) as [X|[_ G]]; [congruence|].
+    (* the id names no entity: it cannot be finished into a link *)
+    exact (convert_link_valid _ _ _ _ (settle_link _ _ H) G).
 Qed.
 
 (* ------------------------------------------------------------------------------------------ *)
@@ -378,33 +427,39 @@ Proof.
   apply find_singles_no_errT.
 Qed.
 
-(* a component kind word, read as an item kind by the context step, names a list attribute *)
-Lemma comp_kind_attr_is_list k c a :
-  assoc_get k link_types = Some c -> assoc_get k sublink_types = Some a ->
-  str_in a children_attrs = true.
+(* the attributes that find_in_scope searches are list attributes *)
+Lemma scope_attrs_children k attrs a :
+  assoc_get k scope_link_types = Some attrs -> In a attrs -> str_in a children_attrs = true.
 Proof.
-  intros H1 H2.
-  assert (A : forallb (fun kc => match assoc_get (fst kc) sublink_types with
-                                 | Some a' => str_in a' children_attrs | None => true end)
-                      link_types = true) by (vm_compute; reflexivity).
-  rewrite forallb_forall in A. specialize (A _ (assoc_get_In _ _ _ H1)). cbn [fst] in A.
-  now rewrite H2 in A.
+  intros H Ha.
+  assert (A : forallb (fun kc => forallb (fun x => str_in x children_attrs) (snd kc))
+                      scope_link_types = true) by (vm_compute; reflexivity).
+  rewrite forallb_forall in A. specialize (A _ (assoc_get_In _ _ _ H)). cbn [snd] in A.
+  rewrite forallb_forall in A. auto.
 Qed.
 
 Definition kind_known (k : option str) : Prop :=
   match k with None => True | Some k' => exists c, assoc_get (lower k') link_types = Some c end.
 
 Lemma find_child_no_errT p i e n k :
-  get_ent p i = Some e -> shapes_ok e = true -> kind_known k -> find_child p i n k <> ErrT.
+  get_ent p i = Some e -> shapes_ok e = true -> find_child p i n k <> ErrT.
 Proof.
-  intros G Hs K. unfold find_child. rewrite G. destruct k as [k|].
-  - destruct K as [c Hc].
-    destruct (assoc_get (lower k) sublink_types) as [a|] eqn:A; [|discriminate].
-    destruct (assoc_get a (e_attrs e)) as [v|] eqn:V; [|discriminate].
-    pose proof (shapes_list e a v Hs (assoc_get_In _ _ _ V) (comp_kind_attr_is_list _ _ _ Hc A)) as L.
-    destruct v as [ids|?| |]; try discriminate L; try discriminate.
-    destruct (find_in p n ids); discriminate.
+  intros G Hs. unfold find_child. rewrite G. destruct k as [k|].
+  - destruct (assoc_get (lower k) sublink_types) as [a|]; [|discriminate].
+    destruct (assoc_get a (e_attrs e)) as [[ids|j| |]|]; try discriminate.
+    + destruct (find_in p n ids); discriminate.
+    + destruct (name_eqb n (name_of p j)); discriminate.
   - now apply find_children_no_errT.
+Qed.
+
+Lemma find_scope_no_errT p i e n k :
+  get_ent p i = Some e -> shapes_ok e = true -> find_scope p i n k <> ErrT.
+Proof.
+  intros G Hs. unfold find_scope. destruct k as [k|]; [|eapply find_child_no_errT; eauto].
+  destruct (assoc_get (lower k) scope_link_types) as [attrs|] eqn:A;
+    [|eapply find_child_no_errT; eauto].
+  rewrite G. apply find_chain_no_errT; auto.
+  intros a Ha. eapply scope_attrs_children; eauto.
 Qed.
 
 (* C11: a reference to nothing is plain text *)
@@ -420,45 +475,49 @@ Definition ctx_shapes (p : proj) (ctx : option nat) : Prop :=
               end
   end.
 
-Lemma find_child_absent p i n k :
-  (forall j, name_eqb n (name_of p j) = false) -> ent_shapes p i -> kind_known k ->
-  find_child p i n k = NotFound \/ find_child p i n k = ErrV.
+Lemma find_scope_invalid p i n k : get_ent p i = None -> find_scope p i n k <> ErrT.
 Proof.
-  intros Hn Hs K.
-  destruct (find_child p i n k) as [j| | |] eqn:F; auto.
-  - apply find_child_named in F. now rewrite Hn in F.
+  intros G. unfold find_scope, find_child. rewrite G.
+  destruct k as [k|]; [|discriminate].
+  destruct (assoc_get (lower k) scope_link_types); discriminate.
+Qed.
+
+Lemma find_scope_absent p i n k :
+  (forall j, name_eqb n (name_of p j) = false) -> ent_shapes p i ->
+  find_scope p i n k = NotFound \/ find_scope p i n k = ErrV.
+Proof.
+  intros Hn Hs.
+  destruct (find_scope p i n k) as [j| | |] eqn:F; auto.
+  - apply find_scope_named in F. now rewrite Hn in F.
   - exfalso. unfold ent_shapes in Hs. destruct (get_ent p i) as [e|] eqn:G.
-    + eapply find_child_no_errT; eauto.
-    + unfold find_child in F. rewrite G in F. discriminate.
+    + eapply find_scope_no_errT; eauto.
+    + eapply find_scope_invalid; eauto.
 Qed.
 
 Theorem absent_plain p ctx r :
   (forall j, name_eqb (r_name r) (name_of p j) = false) ->
-  ctx_shapes p ctx -> kind_known (r_kind r) ->
-  convert_link p ctx r = RPlain.
+  ctx_shapes p ctx ->
+  render p ctx r = RPlain.
 Proof.
-  intros Hn Hs K. unfold convert_link.
+  intros Hn Hs. unfold render, convert_link.
   assert (S : ctx_step p ctx r = NotFound).
   { unfold ctx_step. destruct ctx as [c|]; auto. destruct Hs as [Hc Hp].
     assert (SF : scope_find p c (r_name r) (r_kind r) = NotFound).
     { unfold scope_find, find_child_quiet.
-      destruct (find_child_absent p c _ _ Hn Hc K) as [-> | ->];
+      destruct (find_scope_absent p c _ (r_kind r) Hn Hc) as [-> | ->];
         (destruct (get_ent p c) as [e|]; auto; destruct (e_parent e) as [par|]; auto;
-         destruct (find_child_absent p par _ _ Hn Hp K) as [-> | ->]; reflexivity). }
+         destruct (find_scope_absent p par _ (r_kind r) Hn Hp) as [-> | ->]; reflexivity). }
     rewrite SF. now destruct (r_child r). }
   rewrite S. unfold project_step.
-  assert (P : forall c ck, project_find p (r_name r) (r_kind r) c ck = NotFound).
+  assert (P : forall c ck, project_find p (r_name r) (r_kind r) c ck = NotFound \/
+                           project_find p (r_name r) (r_kind r) c ck = ErrV).
   { intros c ck. unfold project_find.
-    assert (X : exists ids, match r_kind r with
-                | Some k => match assoc_get (lower k) link_types with
-                            | Some c0 => Some (col_ids p c0) | None => None end
-                | None => Some (flat_map (fun kc => col_ids p (snd kc)) link_types)
-                end = Some ids).
-    { destruct (r_kind r) as [k|]; [|eauto]. destruct K as [c0 ->]. eauto. }
-    destruct X as [ids ->].
+    destruct (match r_kind r with Some _ => _ | None => _ end) as [ids|]; auto.
     destruct (find_in p (r_name r) ids) as [i|] eqn:F; auto.
     apply find_in_some in F as [_ F]. now rewrite Hn in F. }
-  rewrite !P. now destruct (r_child r).
+  destruct (P (r_child r) (r_ckind r)) as [-> | ->]; [|reflexivity].
+  destruct (r_child r); [|reflexivity].
+  destruct (P None None) as [-> | ->]; reflexivity.
 Qed.
 
 (* C11: without a context the result is the first match in the project collections, in the
@@ -474,15 +533,69 @@ Definition project_ids (p : proj) (k : option str) : option (list nat) :=
 
 Theorem lookup_first_match p r ids :
   r_child r = None -> project_ids p (r_kind r) = Some ids ->
-  convert_link p None r =
+  render p None r =
   match find_in p (r_name r) ids with
-  | Some i => finish p (Found i)
+  | Some i => settle (finish p (Found i))
   | None => RPlain
   end.
 Proof.
-  intros Hc Hk. unfold convert_link, ctx_step, project_step, project_find.
+  intros Hc Hk. unfold render, convert_link, ctx_step, project_step, project_find.
   unfold project_ids in Hk. rewrite Hk, Hc.
   destruct (find_in p (r_name r) ids); reflexivity.
+Qed.
+
+(* C11: a reference never aborts the conversion (whatever the kind words, existing or not) *)
+Definition all_shapes (p : proj) : Prop := forall i e, get_ent p i = Some e -> shapes_ok e = true.
+
+Lemma find_child_no_errT' p i n k : all_shapes p -> find_child p i n k <> ErrT.
+Proof.
+  intros A. destruct (get_ent p i) as [e|] eqn:G.
+  - eapply find_child_no_errT; eauto.
+  - unfold find_child. rewrite G. discriminate.
+Qed.
+
+Lemma find_scope_no_errT' p i n k : all_shapes p -> find_scope p i n k <> ErrT.
+Proof.
+  intros A. destruct (get_ent p i) as [e|] eqn:G.
+  - eapply find_scope_no_errT; eauto.
+  - now apply find_scope_invalid.
+Qed.
+
+Lemma finish_no_err p f : f <> ErrT -> finish p f <> RErr.
+Proof.
+  destruct f as [i| | |]; simpl; try discriminate; [|congruence].
+  destruct (get_ent p i) as [e|]; [|discriminate]. destruct (e_has_url e); discriminate.
+Qed.
+
+Theorem no_abort p ctx r :
+  all_shapes p -> render p ctx r = RPlain \/ exists j, render p ctx r = RLink j.
+Proof.
+  intros A.
+  assert (N : convert_link p ctx r <> RErr).
+  { unfold convert_link.
+    assert (S : ctx_step p ctx r <> ErrT).
+    { unfold ctx_step. destruct ctx as [c|]; [|discriminate].
+      assert (SF : scope_find p c (r_name r) (r_kind r) <> ErrT).
+      { unfold scope_find, find_child_quiet.
+        pose proof (find_scope_no_errT' p c (r_name r) (r_kind r) A) as F1.
+        destruct (find_scope p c (r_name r) (r_kind r)); try congruence; try discriminate;
+          (destruct (get_ent p c) as [e|]; [|discriminate]; destruct (e_parent e) as [par|]; [|discriminate];
+           pose proof (find_scope_no_errT' p par (r_name r) (r_kind r) A) as F2;
+           destruct (find_scope p par (r_name r) (r_kind r)); try congruence; discriminate). }
+      destruct (scope_find p c (r_name r) (r_kind r)) as [i| | |]; try congruence;
+        destruct (r_child r); try discriminate. now apply find_child_no_errT'. }
+    assert (P : forall c ck, project_find p (r_name r) (r_kind r) c ck <> ErrT).
+    { intros c ck. unfold project_find.
+      destruct (match r_kind r with Some _ => _ | None => _ end) as [ids|]; [|discriminate].
+      destruct (find_in p (r_name r) ids) as [i|]; [|discriminate].
+      destruct c; [now apply find_child_no_errT'|discriminate]. }
+    destruct (ctx_step p ctx r) as [i| | |] eqn:E; try (now apply finish_no_err); try congruence.
+    unfold project_step.
+    pose proof (P (r_child r) (r_ckind r)) as P1.
+    destruct (project_find p (r_name r) (r_kind r) (r_child r) (r_ckind r)) as [i| | |];
+      try (now apply finish_no_err); try congruence.
+    destruct (r_child r); [|discriminate]. apply finish_no_err, P. }
+  unfold render. destruct (convert_link p ctx r) as [j| | |]; simpl; eauto. congruence.
 Qed.
 
 (* ------------------------------------------------------------------------------------------ *)
@@ -673,22 +786,73 @@ Proof.
   apply in_contents. exists a, v. split; auto. now apply assoc_get_In.
 Qed.
 
-(* the two kind words that mean the same in the item table and in the component table *)
-Lemma same_kind_facts k :
-  kind_same_in_scope (Some k) = true ->
-  exists a, str_in a children_attrs = true /\
-            assoc_get (lower k) sublink_types = Some a /\ comp_kind k = Some a /\
-            scope_attrs k a = [a].
+(* the regenerated SCOPE_LINK_TYPES against the Spec's reading of a kind word inside a scope *)
+Lemma scope_table x c :
+  In (x, c) documented_component ->
+  match assoc_get x scope_link_types with
+  | Some attrs => attrs = scope_attrs x c
+  | None => scope_attrs x c = [] /\ assoc_get x sublink_types = None
+  end.
 Proof.
-  unfold kind_same_in_scope. intros H. apply orb_true_iff in H as [H|H];
-    apply str_eqb_eq in H; unfold comp_kind, scope_attrs; rewrite H.
-  - exists (s "types"). repeat split; reflexivity.
-  - exists (s "absinterfaces"). repeat split; reflexivity.
+  intros H.
+  assert (A : forallb (fun kc =>
+                match assoc_get (fst kc) scope_link_types with
+                | Some attrs => list_eqb str_eqb attrs (scope_attrs (fst kc) (snd kc))
+                | None => match scope_attrs (fst kc) (snd kc), assoc_get (fst kc) sublink_types with
+                          | [], None => true | _, _ => false end
+                end) documented_component = true) by (vm_compute; reflexivity).
+  rewrite forallb_forall in A. specialize (A _ H). cbn [fst snd] in A.
+  destruct (assoc_get x scope_link_types) as [attrs|].
+  - apply (list_eqb_eq str_eqb str_eqb_eq) in A. exact A.
+  - destruct (scope_attrs x c); [|discriminate]. destruct (assoc_get x sublink_types); [discriminate|auto].
+Qed.
+
+Theorem kind_tables_scope_complete :
+  forall kc, In kc scope_link_types -> exists c, In (fst kc, c) doc_comp_kinds.
+Proof.
+  intros kc H.
+  assert (A : forallb (fun x => match assoc_get (fst x) doc_comp_kinds with Some _ => true | None => false end)
+                      scope_link_types = true) by (vm_compute; reflexivity).
+  rewrite forallb_forall in A. specialize (A _ H).
+  destruct (assoc_get (fst kc) doc_comp_kinds) as [c|] eqn:E; [|discriminate].
+  exists c. now apply assoc_get_In.
+Qed.
+
+Lemma comp_kind_in k c : comp_kind k = Some c -> In (lower k, c) documented_component.
+Proof.
+  unfold comp_kind, documented_component. intros H. apply in_or_app.
+  destruct (assoc_get (lower k) doc_comp_kinds) as [c'|] eqn:E.
+  - injection H as <-. left. now apply assoc_get_In.
+  - right. now apply assoc_get_In.
+Qed.
+
+Lemma find_chain_spec p e n attrs :
+  shapes_ok e = true -> (forall a, In a attrs -> str_in a children_attrs = true) ->
+  match find_chain p e n attrs with
+  | Found i => In i (contents_of e attrs) /\ name_eqb n (name_of p i) = true
+  | NotFound => forall i, In i (contents_of e attrs) -> name_eqb n (name_of p i) = false
+  | _ => False
+  end.
+Proof.
+  intros Hs. induction attrs as [|a attrs IH]; intros Ha; simpl.
+  - intros i [].
+  - assert (IH' := IH (fun a' H => Ha a' (or_intror H))). clear IH.
+    unfold contents_of in *. simpl.
+    destruct (assoc_get a (e_attrs e)) as [v|] eqn:A.
+    + pose proof (shapes_list e a v Hs (assoc_get_In _ _ _ A) (Ha a (or_introl eq_refl))) as L.
+      destruct v as [ids|?| |]; try discriminate L; simpl.
+      * destruct (find_in p n ids) as [i|] eqn:F.
+        -- apply find_in_some in F as [F1 F2]. split; auto. apply in_or_app. now left.
+        -- destruct (find_chain p e n attrs) as [i| | |]; try contradiction.
+           ++ destruct IH' as [I1 I2]. split; auto. apply in_or_app. now right.
+           ++ intros i Hi. apply in_app_or in Hi as [Hi|Hi]; auto. eapply find_in_none; eauto.
+      * exact IH'.
+    + exact IH'.
 Qed.
 
 Lemma scope_level p c e n k :
   get_ent p c = Some e -> ent_ok e -> urls_ok p = true -> ids_ok p = true ->
-  kind_same_in_scope k = true ->
+  kind_documented k = true ->
   match find_child_quiet p c n k with
   | Found i => In i (scope_cands p c n k)
   | NotFound => scope_cands p c n k = []
@@ -696,26 +860,22 @@ Lemma scope_level p c e n k :
   end.
 Proof.
   intros G Hok U I K. pose proof (get_ent_in _ _ _ G) as [Hin _].
-  unfold find_child_quiet, find_child, scope_cands. rewrite G.
+  unfold find_child_quiet, find_scope, scope_cands. rewrite G.
   destruct k as [k|].
-  - destruct (same_kind_facts k K) as (a & Ca & S1 & S2 & S3). rewrite S1, S2, S3.
+  - unfold kind_documented in K. destruct (comp_kind k) as [cc|] eqn:CK; [|discriminate].
+    pose proof (scope_table _ _ (comp_kind_in _ _ CK)) as ST.
     destruct Hok as [Hs Hc].
-    destruct (assoc_get a (e_attrs e)) as [v|] eqn:A.
-    + pose proof (shapes_list e a v Hs (assoc_get_In _ _ _ A) Ca) as L.
-      destruct v as [ids|?| |]; try discriminate L.
-      * destruct (find_in p n ids) as [i|] eqn:F.
-        -- apply find_in_some in F as [F1 F2]. apply matching_in.
-           assert (Hi : In i (contents_of e [a])) by (unfold contents_of; simpl; rewrite A; simpl; rewrite app_nil_r; exact F1).
-           split; auto. split; auto. apply has_url_lt; auto.
-           eapply contents_lt; eauto. eapply contents_of_sub; eauto.
-        -- apply filter_nil. intros i Hi. apply contents_of_in in Hi as (a' & v' & [<-|[]] & A' & Hi).
-           rewrite A in A'. injection A' as <-. simpl in Hi.
-           rewrite (find_in_none _ _ _ F i Hi). reflexivity.
-      * apply filter_nil. intros i Hi. apply contents_of_in in Hi as (a' & v' & [<-|[]] & A' & Hi).
-        rewrite A in A'. injection A' as <-. destruct Hi.
-    + apply filter_nil. intros i Hi. apply contents_of_in in Hi as (a' & v' & [<-|[]] & A' & Hi).
-      congruence.
-  - pose proof (find_children_spec p e n Hok) as FS.
+    destruct (assoc_get (lower k) scope_link_types) as [attrs|] eqn:SL.
+    + subst attrs.
+      pose proof (find_chain_spec p e n (scope_attrs (lower k) cc) Hs
+                    (fun a H => scope_attrs_children _ _ a SL H)) as FC.
+      destruct (find_chain p e n (scope_attrs (lower k) cc)) as [i| | |]; try contradiction.
+      * destruct FC as [F1 F2]. apply matching_in. split; auto. split; auto.
+        apply has_url_lt; auto. eapply contents_lt; eauto. eapply contents_of_sub; eauto.
+      * apply filter_nil. intros i Hi. now rewrite (FC i Hi).
+    + destruct ST as [S1 S2]. rewrite S1. unfold find_child. rewrite G, S2. reflexivity.
+  - unfold find_child. rewrite G.
+    pose proof (find_children_spec p e n Hok) as FS.
     destruct (find_children p e n) as [i| | |]; try contradiction.
     + destruct FS as [F1 F2]. apply matching_in. split; auto. split; auto.
       apply has_url_lt; auto. eapply contents_lt; eauto.
@@ -812,26 +972,24 @@ Proof.
   destruct k as [k|]; [destruct (comp_kind k); [|intros []]|]; intros H; now apply matching_in in H.
 Qed.
 
-(* C11_lookup_order: outside the region of the known finding, a reference without item part is
-   rendered as the Spec demands: a link into the first of the three levels (contents of the
-   context, of its parent, the whole project) that has a match, plain text if none has *)
+(* C11_lookup_order: a reference without item part is rendered as the Spec demands: a link into
+   the first of the three levels (contents of the context, of its parent, the whole project)
+   that has a match -- honouring the kind word at every level --, plain text if none has *)
 Theorem lookup_order p ctx r :
   r_child r = None -> r_ckind r = None -> kind_documented (r_kind r) = true ->
-  region_kind_scope ctx r = false ->
   ctx_ok p ctx -> urls_ok p = true -> ids_ok p = true ->
-  spec_accepts p ctx r (convert_link p ctx r) = true.
+  spec_accepts p ctx r (render p ctx r) = true.
 Proof.
-  intros Hc Hck K R Hctx U I.
+  intros Hc Hck K Hctx U I.
   rewrite spec_accepts_simple by auto.
-  unfold comp_cands, convert_link, ctx_step, project_step. rewrite Hc.
+  unfold comp_cands, render, convert_link, ctx_step, project_step. rewrite Hc.
   pose proof (project_level p (r_name r) (r_kind r) U I K) as PL.
   assert (Proj : forall pre, (forall l, In l pre -> l = []) ->
             accepted_simple (first_nonempty (pre ++ [project_cands p (r_name r) (r_kind r)]))
-              match project_find p (r_name r) (r_kind r) None None with
-              | Found i => finish p (Found i)
-              | NotFound => RPlain
-              | _ => RErr
-              end = true).
+              (settle match project_find p (r_name r) (r_kind r) None None with
+                      | NotFound => RPlain
+                      | f => finish p f
+                      end) = true).
   { intros pre Hpre.
     assert (E : first_nonempty (pre ++ [project_cands p (r_name r) (r_kind r)])
                 = project_cands p (r_name r) (r_kind r)).
@@ -843,21 +1001,20 @@ Proof.
     - rewrite (finish_cand p i (project_cands_url _ _ _ _ PL)). now apply cands_link.
     - now rewrite PL. }
   destruct ctx as [c|].
-  - unfold region_kind_scope in R. apply negb_false_iff in R.
-    destruct Hctx as (e & G & Hok & Hpar).
+  - destruct Hctx as (e & G & Hok & Hpar).
     unfold levels, scope_find. rewrite G.
-    pose proof (scope_level p c e (r_name r) (r_kind r) G Hok U I R) as L1.
+    pose proof (scope_level p c e (r_name r) (r_kind r) G Hok U I K) as L1.
     destruct (find_child_quiet p c (r_name r) (r_kind r)) as [i| | |]; try contradiction.
     + rewrite (finish_cand p i (scope_cands_url _ _ _ _ _ L1)).
-      cbn [first_nonempty app].
+      cbn [first_nonempty app settle].
       destruct (scope_cands p c (r_name r) (r_kind r)) eqn:S; [destruct L1|].
       unfold accepted_simple. now apply nat_in_In.
     + destruct (e_parent e) as [par|].
       * destruct Hpar as (e' & G' & Hok').
-        pose proof (scope_level p par e' (r_name r) (r_kind r) G' Hok' U I R) as L2.
+        pose proof (scope_level p par e' (r_name r) (r_kind r) G' Hok' U I K) as L2.
         destruct (find_child_quiet p par (r_name r) (r_kind r)) as [i| | |]; try contradiction.
         -- rewrite (finish_cand p i (scope_cands_url _ _ _ _ _ L2)).
-           cbn [first_nonempty app]. rewrite L1.
+           cbn [first_nonempty app settle]. rewrite L1.
            destruct (scope_cands p par (r_name r) (r_kind r)) eqn:S; [destruct L2|].
            unfold accepted_simple. now apply nat_in_In.
         -- apply (Proj [scope_cands p c (r_name r) (r_kind r); scope_cands p par (r_name r) (r_kind r)]).
@@ -866,7 +1023,7 @@ Proof.
   - apply (Proj []). intros l [].
 Qed.
 
-(* refutations: the regions of the known findings *)
+(* the former witnesses of the repaired defects, kept as regression examples *)
 Definition w_proj : proj :=
   {| p_ents :=
        [ {| e_name := s "m"; e_attrs := [(s "subroutines", AList [1]); (s "functions", AList [])];
@@ -878,44 +1035,33 @@ Definition w_proj : proj :=
      p_cols := [(s "modules", [0]); (s "procedures", [2; 1])] |}.
 Definition w_ref : ref :=
   {| r_name := s "reset"; r_kind := Some (s "proc"); r_child := None; r_ckind := None |}.
-
-(* [[reset(proc)]] in the documentation of m's own subroutine reset leads to the other reset *)
-Lemma lookup_order_refuted :
-  exists p ctx r, r_child r = None /\ r_ckind r = None /\ kind_documented (r_kind r) = true /\
-    ctx_ok p ctx /\ urls_ok p = true /\ ids_ok p = true /\
-    region_kind_scope ctx r = true /\
-    convert_link p ctx r = RLink 2 /\ comp_cands p ctx r = [1] /\
-    spec_accepts p ctx r (convert_link p ctx r) = false /\
-    convert_link p ctx {| r_name := s "reset"; r_kind := None; r_child := None; r_ckind := None |}
-    = RLink 1.
-Proof.
-  exists w_proj, (Some 1), w_ref. repeat split; try reflexivity.
-  exists (nth 1 (p_ents w_proj) (nth 0 (p_ents w_proj) {| e_name := []; e_attrs := []; e_parent := None; e_has_url := true |})).
-  split; [reflexivity|]. split; [split; reflexivity|].
-  simpl. eexists. split; [reflexivity|]. split; reflexivity.
-Qed.
-
-(* [[m:reset(bound)]]: a documented item kind that a module cannot have: the guide promises a
-   warning and no link, the code raises *)
 Definition w_ref2 : ref :=
   {| r_name := s "m"; r_kind := None; r_child := Some (s "reset"); r_ckind := Some (s "bound") |}.
-Lemma child_kind_refuted :
-  exists p ctx r, kind_documented (r_kind r) = true /\ ckind_documented (r_ckind r) = true /\
-    convert_link p ctx r = RErr /\ spec_accepts p ctx r RErr = false /\
-    spec_accepts p ctx r RPlain = true.
-Proof. exists w_proj, None, w_ref2. repeat split; reflexivity. Qed.
+
+(* [[reset(proc)]] in the documentation of m's own subroutine reset leads to m's reset, as [[reset]]
+   does; [[m:reset(bound)]] (an item kind that a module cannot have) is plain text *)
+Example regression_witnesses :
+  render w_proj (Some 1) w_ref = RLink 1 /\ comp_cands w_proj (Some 1) w_ref = [1] /\
+  render w_proj (Some 1) {| r_name := s "reset"; r_kind := None; r_child := None; r_ckind := None |}
+  = RLink 1 /\
+  render w_proj None w_ref = RLink 2 /\
+  convert_link w_proj None w_ref2 = RWarn /\ render w_proj None w_ref2 = RPlain /\
+  spec_accepts w_proj None w_ref2 RPlain = true.
+Proof. repeat split; reflexivity. Qed.
 
 (* non-vacuity *)
 Definition w_ref0 : ref := {| r_name := s "Reset"; r_kind := None; r_child := None; r_ckind := None |}.
 Example ex_lookup_hyps :
-  r_child w_ref0 = None /\ r_ckind w_ref0 = None /\ kind_documented (r_kind w_ref0) = true /\
-  region_kind_scope (Some 1) w_ref0 = false /\ ctx_ok w_proj (Some 1) /\
-  urls_ok w_proj = true /\ ids_ok w_proj = true /\
-  convert_link w_proj (Some 1) w_ref0 = RLink 1 /\ convert_link w_proj None w_ref0 = RLink 2.
+  r_child w_ref = None /\ r_ckind w_ref = None /\ kind_documented (r_kind w_ref) = true /\
+  ctx_ok w_proj (Some 1) /\
+  urls_ok w_proj = true /\ ids_ok w_proj = true /\ all_shapes w_proj /\
+  render w_proj (Some 1) w_ref0 = RLink 1 /\ render w_proj None w_ref0 = RLink 2.
 Proof.
   repeat split; try reflexivity.
-  eexists. split; [reflexivity|]. split; [split; reflexivity|].
-  simpl. eexists. split; [reflexivity|]. split; reflexivity.
+  - eexists. split; [reflexivity|]. split; [split; reflexivity|].
+    simpl. eexists. split; [reflexivity|]. split; reflexivity.
+  - intros [|[|[|i]]] e H; simpl in H; try (injection H as <-; reflexivity).
+    unfold get_ent in H. simpl in H. destruct i; discriminate.
 Qed.
 
 Example ex_absent_hyps :
